@@ -77,6 +77,8 @@ func main() {
 			dst := filepath.Join(out, "root_vfs_linkname.go")
 			must(os.WriteFile(dst, []byte(s), 0o644))
 			replace[ln] = dst
+		} else if n := seamGoBodiedRandom(repo, out, replace); n > 0 {
+			notes = append(notes, fmt.Sprintf("nextRandom seam applied around the library's own generator (%d file(s))", n))
 		} else {
 			notes = append(notes, "nextRandom seam not applied: pattern not found in vfs_linkname.go")
 		}
@@ -308,4 +310,42 @@ func pureExpr(e ast.Expr) bool {
 	}
 
 	return false
+}
+
+// seamGoBodiedRandom handles a tree whose nextRandom is an ordinary Go function
+// of the root package instead of the linkname to os.nextRandom.  The seam must
+// not hide the code it replaces: the library's generator is renamed and still
+// EXECUTED at every call (its memory accesses stay visible to the race
+// detector and its panics to the explorer), only the value it produced is
+// replaced by the harness's answer so that names stay deterministic.
+func seamGoBodiedRandom(repo, out string, replace map[string]string) int {
+	files, _ := filepath.Glob(filepath.Join(repo, "*.go"))
+	n := 0
+	for _, f := range files {
+		if strings.HasSuffix(f, "_test.go") {
+			continue
+		}
+		src, err := os.ReadFile(f)
+		if err != nil {
+			continue
+		}
+		const decl = "\nfunc nextRandom() string {"
+		if !bytes.Contains(src, []byte(decl)) {
+			continue
+		}
+		s := strings.Replace(string(src), decl, "\nfunc verifNextRandomOrig() string {", 1)
+		dst := filepath.Join(out, "root_rnd_"+filepath.Base(f))
+		must(os.WriteFile(dst, []byte(s), 0o644))
+		replace[f] = dst
+		n++
+	}
+	if n == 0 {
+		return 0
+	}
+	seam := "package avfs\n\nimport verifrt \"" + shimPath + "\"\n\n" +
+		"func nextRandom() string { o := verifNextRandomOrig(); if s, ok := verifrt.Random(); ok { return s }; return o }\n"
+	dst := filepath.Join(out, "root_zz_verif_random.go")
+	must(os.WriteFile(dst, []byte(seam), 0o644))
+	replace[filepath.Join(repo, "zz_verif_random.go")] = dst
+	return n
 }
